@@ -77,3 +77,39 @@ def readBitRegionSize (legacy : Bool) : Rd Nat :=
   if legacy then readLE 8 else decVarint 64
 
 end Draco
+
+namespace Draco
+
+/-- the bits written by a sequence of `PutBits(value_i, nbits_i)` calls, given as
+    `(nbits_i, value_i)` pairs -/
+def putBitsAll (ops : List (Nat × Nat)) : List Bool := ops.flatMap fun p => bitsOf p.1 p.2
+
+/-- a sequence of `GetBits(n_i)` calls; `none` as soon as one of them fails (`n_i > 32`) -/
+def BitReader.getMany : List Nat → BitReader → Option (List Nat × BitReader)
+  | [], r => some ([], r)
+  | n :: ns, r =>
+    match r.getBits n with
+    | none => none
+    | some (v, r') =>
+      match BitReader.getMany ns r' with
+      | none => none
+      | some (vs, r'') => some (v :: vs, r'')
+
+/-- `StartBitDecoding(withSize, &size)`, the `GetBits` calls, `EndBitDecoding`:
+    returns the stored size (if any) and the values; the reader continues
+    `ceil(bits_decoded/8)` bytes after the start of the bit data. -/
+def decBitRegion (legacy withSize : Bool) (widths : List Nat) : Rd (Option Nat × List Nat) := fun bs =>
+  let start : Option (Option Nat × Bytes) :=
+    if withSize then
+      match readBitRegionSize legacy bs with
+      | none => none
+      | some (s, bs1) => some (some s, bs1)
+    else some (none, bs)
+  match start with
+  | none => none
+  | some (sz, bs1) =>
+    match (BitReader.start bs1).getMany widths with
+    | none => none
+    | some (vs, r) => some ((sz, vs), bs1.drop r.bytesDecoded)
+
+end Draco
